@@ -353,6 +353,7 @@ def disagrees(case, entry="predict"):
 def correspondence(ctx: Ctx, extra_cases=None):
     ncases = 120 if ctx.quick else 1500
     terms, cases = [], []
+    raised_seen: set = set()
     plan = [("duckdb", ncases), ("sqlite", ncases // 4)]
     for backend, cnt in plan:
         for i in range(cnt):
@@ -372,7 +373,17 @@ def correspondence(ctx: Ctx, extra_cases=None):
                 case = dict(case, rules=[f'l."{y}" = r."{y}"'], one_table=False,
                             reuse=[x, y, ctx.rng.choice(["analysis", "prior"])])
             rows, mats = outcome_matrices(case)
-            impl = run_impl(case, entry)
+            try:
+                impl = run_impl(case, entry)
+            except Exception as e:  # every generated input has a defined answer
+                su.quiet()
+                key = f"raises:{type(e).__name__}:{entry}"
+                if key not in raised_seen:
+                    raised_seen.add(key)
+                    ctx.violation(f"implementation raises {type(e).__name__} on an input with a defined answer (entry {entry}, backend {backend}): {str(e)[-300:]}",
+                                  {"case": case, "entry": entry, "specification": py_model(case, rows, mats)},
+                                  dict(features_of(case), raises=type(e).__name__))
+                continue
             t, expd = case_term(case, rows, mats, impl)
             terms.append(t)
             cases.append((case, entry))
